@@ -192,6 +192,7 @@ struct OpSpec {
   u32 hold_sleep;
   int depth;  // recursive re-entry depth (1..3)
   u32 gap;
+  bool partial = false;  // recursive types: release one level while still holding another, then acquire it again
 };
 
 struct World {
@@ -307,6 +308,42 @@ void RunOp(World& w, int me, const OpSpec& s) {
     // still the holder?
     CheckCompat(w, me, !shared, "hold");
   }
+  if (s.partial && w.lk.Recursive() && !shared && got >= 2) {
+    // partial unlock: we still own one level, so we are still the owner and the next acquisition is a re-entry
+    sh.excl[me]--;
+    sh.activity++;
+    w.lk.unlock();
+    sh.activity++;
+    for (u32 i = 0; i < s.hold_yields; ++i) {
+      yaclib_std::this_thread::yield();
+    }
+    CheckCompat(w, me, true, "hold after partial unlock");
+    bool ok = true;
+    switch (s.op) {
+      case oLock:
+        w.lk.lock();  // a lost owner blocks here forever: reported as parked-at-quiescence
+        break;
+      case oTry:
+        ok = w.lk.try_lock();
+        break;
+      case oTryFor:
+        ok = w.lk.try_lock_for(std::chrono::nanoseconds{s.dur_ns});
+        break;
+      default:
+        ok = w.lk.try_lock_until(yaclib_std::chrono::steady_clock::now() + std::chrono::nanoseconds{s.dur_ns});
+        break;
+    }
+    if (ok) {
+      sh.excl[me]++;
+      w.ctx->Class("reacquired-after-partial-unlock");
+    } else {
+      --got;
+      w.ctx->Fail("unjustified-failure", "C18",
+                  "%s: %s by fiber %d returned false although this fiber still owns the lock (it released one of %d levels)",
+                  kTypeName[w.lk.type], kOpName[s.op], me, got + 1);
+      w.unjustified++;
+    }
+  }
   for (int d = 0; d < got; ++d) {
     if (shared) {
       sh.shared[me]--;
@@ -360,6 +397,7 @@ void LockCase(Ctx& ctx, int type) {
       s.hold_sleep = ctx.rng.Below(3) == 0 ? ctx.rng.Below(300) : 0;
       s.depth = static_cast<int>(ctx.rng.In(1, 3));
       s.gap = ctx.rng.Below(3);
+      s.partial = ctx.rng.Below(3) == 0;
       p.push_back(s);
     }
   }
@@ -403,9 +441,13 @@ void CondvarCase(Ctx& ctx) {
   u32 dur = ctx.rng.Below(3) == 0 ? ctx.rng.Below(120) : 2000 + ctx.rng.Below(2000);
   u32 njit = ctx.rng.Below(8);
   u32 hold = ctx.rng.Below(4);
+  // single-shot: the notifier waits until every waiter has registered under the mutex (so it is blocked in wait, which
+  // releases the mutex and blocks atomically, or has already returned), then changes the state under the mutex and
+  // notifies exactly once.  Nothing compensates for a lost notification then: an untimed waiter stays parked.
+  bool single_shot = ctx.rng.Coin();
   static const char* const kForm[] = {"wait", "wait(pred)", "wait_for", "wait_for(pred)", "wait_until", "wait_until(pred)"};
-  ctx.Note("condition_variable %s x%d waiters, %s after %u yields, timeout %u ns", kForm[form], nw,
-           notify_all ? "notify_all" : "notify_one per waiter", njit, dur);
+  ctx.Note("condition_variable %s x%d waiters, %s %s after %u yields, timeout %u ns", kForm[form], nw,
+           notify_all ? "notify_all" : "notify_one per waiter", single_shot ? "exactly once" : "repeated", njit, dur);
   yaclib_std::mutex m;
   yaclib_std::condition_variable cv;
   int waiting = 0;
@@ -481,6 +523,26 @@ void CondvarCase(Ctx& ctx) {
           break;
         }
         int blocked_now = waiting;
+        if (single_shot) {
+          if (waiting + woke != nw) {
+            lk.unlock();
+            yaclib_std::this_thread::yield();
+            continue;  // somebody has not reached its wait yet
+          }
+          flag = true;
+          for (u32 h = 0; h < hold; ++h) {
+            yaclib_std::this_thread::yield();
+          }
+          lk.unlock();
+          if (notify_all) {
+            cv.notify_all();
+          } else {
+            for (int k = 0; k < blocked_now; ++k) {
+              cv.notify_one();
+            }
+          }
+          break;
+        }
         if (blocked_now != 0) {
           flag = true;
           for (u32 h = 0; h < hold; ++h) {
